@@ -78,22 +78,24 @@ __strpt_card(struct strpt_s *d, const char *str, struct dt_spec_s s, char **ep)
 		}
 		break;
 	case DT_SPFL_N_HOUR:
+		/* like days and months, hours, minutes and seconds may have
+		 * been printed blank padded */
 		if (!s.sc12) {
-			d->h = strtoi_lim(sp, &sp, 0, 23);
+			d->h = padstrtoi_lim(sp, &sp, 0, 23);
 		} else {
-			d->h = strtoi_lim(sp, &sp, 1, 12);
+			d->h = padstrtoi_lim(sp, &sp, 1, 12);
 		}
 		if (d->h < 0) {
 			goto fucked;
 		}
 		break;
 	case DT_SPFL_N_MIN:
-		if ((d->m = strtoi_lim(sp, &sp, 0, 59)) < 0) {
+		if ((d->m = padstrtoi_lim(sp, &sp, 0, 59)) < 0) {
 			goto fucked;
 		}
 		break;
 	case DT_SPFL_N_SEC:
-		if ((d->s = strtoi_lim(sp, &sp, 0, 60)) < 0) {
+		if ((d->s = padstrtoi_lim(sp, &sp, 0, 60)) < 0) {
 			goto fucked;
 		}
 		break;
